@@ -564,7 +564,7 @@ static int vi_motionln(int *row, int cmd)
 		*row = MIN(xtop + xrows / 2, lbuf_len(xb) - 1);
 		break;
 	default:
-		if (c == cmd) {
+		if (cmd && c == cmd) {
 			*row = MIN(*row + cnt - 1, lbuf_len(xb) - 1);
 			break;
 		}
